@@ -42,6 +42,17 @@ func Intn(n int) int {
 	return a[s.FreeChoice(len(a), 'r')]
 }
 
+// NormFloat64 and ExpFloat64 are driven by the same alphabet as Float64 (a normal
+// or exponential variate can be any real / any non-negative real; the alphabet's
+// u in [0, 1/2] maps to z in [-4, 4] and to x in [0, 8]).
+func NormFloat64() float64 { return 16 * (Float64() - 0.25) }
+func ExpFloat64() float64  { return 16 * Float64() }
+func Float32() float32     { return float32(Float64()) }
+func Uint32() uint32       { return 0 }
+func Uint64() uint64       { return 0 }
+func Int31() int32         { return 0 }
+func Seed(int64)           {}
+
 func Int() int             { return 0 }
 func Int63() int64         { return 0 }
 func Int63n(n int64) int64 { return int64(Intn(int(n))) }
